@@ -155,7 +155,15 @@ func worker() {
 					// release probe: an acquisition on a path nobody else uses, ended in every way an entry
 					// point can end (function / content reader failing included); once the call has
 					// returned, a non-blocking exclusive flock on a fresh descriptor must be granted
-					kind := []string{"Write", "Write whose content reader fails", "Transform", "Transform whose function fails", "Create+Close", "Edit+Close", "Open+Close", "Mutex.Lock+unlock"}[rng.Intn(8)]
+					kind := []string{"Write", "Write whose content reader fails", "Transform", "Transform whose function fails", "Create+Close", "Edit+Close", "Open+Close", "Mutex.Lock+unlock",
+						"Create+Close with the descriptor duplicated", "Edit+Close with the descriptor duplicated", "Open+Close with the descriptor duplicated"}[rng.Intn(11)]
+					// "with the descriptor duplicated": a second descriptor for the same open file description
+					// exists when Close is called (what a child process that inherited the descriptor, or a
+					// fork in progress in another goroutine, amounts to): Close must release the lock itself,
+					// closing one of two descriptors does not
+					dupFd := -1
+					withDup := strings.HasSuffix(kind, " with the descriptor duplicated")
+					kind0 := strings.TrimSuffix(kind, " with the descriptor duplicated")
 					var err error
 					wantErr := false
 					switch kind {
@@ -169,9 +177,9 @@ func worker() {
 					case "Transform whose function fails":
 						wantErr = true
 						err = lockedfile.Transform(priv, func(old []byte) ([]byte, error) { return nil, errProbe })
-					case "Create+Close", "Edit+Close", "Open+Close":
+					case "Create+Close", "Edit+Close", "Open+Close", "Create+Close with the descriptor duplicated", "Edit+Close with the descriptor duplicated", "Open+Close with the descriptor duplicated":
 						var f *lockedfile.File
-						switch kind {
+						switch kind0 {
 						case "Create+Close":
 							f, err = lockedfile.Create(priv)
 						case "Edit+Close":
@@ -182,6 +190,9 @@ func worker() {
 							}
 						}
 						if err == nil {
+							if withDup {
+								dupFd, _ = syscall.Dup(int(f.Fd()))
+							}
 							dwell()
 							err = f.Close()
 						}
@@ -194,6 +205,9 @@ func worker() {
 					}
 					if wantErr != (err != nil) || (wantErr && !errors.Is(err, errProbe)) {
 						viol("release-probe-error", fmt.Sprintf("%s on a private path returned %v", kind, err))
+						if dupFd >= 0 {
+							syscall.Close(dupFd)
+						}
 						continue
 					}
 					if pf, perr := os.OpenFile(priv, os.O_RDWR, 0); perr == nil {
@@ -206,6 +220,9 @@ func worker() {
 						mu.Lock()
 						res.Acq["(release probe) "+kind]++
 						mu.Unlock()
+					}
+					if dupFd >= 0 {
+						syscall.Close(dupFd)
 					}
 					continue
 				}
@@ -352,7 +369,7 @@ func main() {
 		return
 	}
 	vlib.Main("C06", "exploration", 10*time.Minute, func(r *vlib.Run) {
-		r.Rule("rounds of P processes x G goroutines released together, each doing N acquisitions on 2-3 lock paths (regular files; every other round also one private character device or FIFO, whose truncation by Create/Write fails and is tolerated) through a random entry point (OpenFile O_RDONLY/O_WRONLY/O_RDWR, Open, Create, Edit, Mutex.Lock, inside Transform's function, inside the reader handed to Write), dwelling 0-300us inside, with seeded delays at the lockedfile.open/close hooks; every second worker process closes its standard input first, so that lock files are opened on descriptor 0; one round in six runs its workers as uid 65534 on lock files they can read but not write (write-locking entry points must be refused, not weakened); every third round the workers run under strace, which makes every other flock call of every thread fail with EINTR (an interrupted lock request must be reissued, never taken for granted) or, in every other such round, every third one with ENOSYS (a refused lock request must surface as an error, never as an unlocked file); in the other rounds one operation in 16 is a release probe: an acquisition on a path private to the goroutine, ended in each way an entry point can end (Write / Write whose content reader fails / Transform / Transform whose function fails / Create, Edit, Open + Close / Mutex.Lock + unlock), after whose return a non-blocking exclusive flock on a fresh descriptor must be granted. Evaluations = acquisitions; distinct non-trivial = acquisitions that found a conflicting holder inside when they were invoked (had to wait), plus rounds.")
+		r.Rule("rounds of P processes x G goroutines released together, each doing N acquisitions on 2-3 lock paths (regular files; every other round also one private character device or FIFO, whose truncation by Create/Write fails and is tolerated) through a random entry point (OpenFile O_RDONLY/O_WRONLY/O_RDWR, Open, Create, Edit, Mutex.Lock, inside Transform's function, inside the reader handed to Write), dwelling 0-300us inside, with seeded delays at the lockedfile.open/close hooks; every second worker process closes its standard input first, so that lock files are opened on descriptor 0; one round in six runs its workers as uid 65534 on lock files they can read but not write (write-locking entry points must be refused, not weakened); every third round the workers run under strace, which makes every other flock call of every thread fail with EINTR (an interrupted lock request must be reissued, never taken for granted) or, in every other such round, every third one with ENOSYS (a refused lock request must surface as an error, never as an unlocked file); in the other rounds one operation in 16 is a release probe: an acquisition on a path private to the goroutine, ended in each way an entry point can end (Write / Write whose content reader fails / Transform / Transform whose function fails / Create, Edit, Open + Close, also while a duplicate of the descriptor is open elsewhere / Mutex.Lock + unlock), after whose return a non-blocking exclusive flock on a fresh descriptor must be granted. Evaluations = acquisitions; distinct non-trivial = acquisitions that found a conflicting holder inside when they were invoked (had to wait), plus rounds.")
 		r.Assume("flock semantics of the host kernel; the occupancy word is updated only between an acquiring call's return and the releasing call's invocation")
 		base := vlib.Scratch()
 		rounds := r.Pick(6, 28)
